@@ -2,6 +2,11 @@ module verif/harness
 
 go 1.25.0
 
-require github.com/mutagen-io/mutagen v0.0.0
+require (
+	github.com/mutagen-io/mutagen v0.0.0
+	google.golang.org/protobuf v1.36.11
+)
+
+require golang.org/x/sys v0.43.0 // indirect
 
 replace github.com/mutagen-io/mutagen => /repo
